@@ -116,6 +116,7 @@ type StoreCall struct {
 	Val    string // value returned (Get)
 	Rev    uint64
 	Exp    uint64
+	ReqVal string // value sent (Create/Update)
 }
 
 type View struct {
@@ -217,7 +218,7 @@ func NewView(spec *Spec, ev []Event) *View {
 			}
 			flag[e.Inst] = e.Flag
 		case "store.issue":
-			c := &StoreCall{Inst: e.Inst, Op: e.Op, Call: e.Call, Issue: idx, Apply: -1, Return: -1, IssueVT: e.VT, Fault: e.Fault, Ord: int(e.N), G: e.G, Exp: e.Exp}
+			c := &StoreCall{Inst: e.Inst, Op: e.Op, Call: e.Call, Issue: idx, Apply: -1, Return: -1, IssueVT: e.VT, Fault: e.Fault, Ord: int(e.N), G: e.G, Exp: e.Exp, ReqVal: e.Val}
 			v.Calls[e.Call] = c
 			v.CallsL = append(v.CallsL, c)
 		case "store.apply":
